@@ -85,6 +85,9 @@ def h_remove_node():
     box = [None, {}]
     spec = Spec()
     spec.loops.update(remove_node_loop_specs(box))
+    by_stream = remove_node_loop_specs(box)
+    spec.stream_loops["in_edges"] = by_stream[("SymbolGraph.remove_node", 0)]
+    spec.stream_loops["out_edges"] = by_stream[("SymbolGraph.remove_node", 1)]
 
     def run(vm):
         ctx = vm.ctx
